@@ -35,7 +35,7 @@ static void *g_silk;
 static char *g_rec; static size_t g_reclen, g_reccap;
 static char *g_ev; static size_t g_evlen, g_evcap;
 static opus_uint32 g_red; static long g_e_off;
-static long g_dist[16];
+static long g_dist[32];
 
 static void app(char **b, size_t *len, size_t *cap, const char *fmt, va_list ap)
 {
@@ -152,10 +152,10 @@ void __wrap_silk_stereo_decode_mid_only(ec_dec *dec, opus_int *flag)
 static int g_celt_on;
 int __real_ec_dec_bit_logp(ec_dec *, unsigned);
 int __wrap_ec_dec_bit_logp(ec_dec *d, unsigned logp)
-{ int v = __real_ec_dec_bit_logp(d, logp); if (g_celt_on) rec(" b%u=%d", logp, v); return v; }
+{ int v = __real_ec_dec_bit_logp(d, logp); if (g_celt_on) { rec(" b%u=%d", logp, v); if (g_celt_on == 2 && logp == 2) g_dist[25]++; } return v; }
 opus_uint32 __real_ec_dec_uint(ec_dec *, opus_uint32);
 opus_uint32 __wrap_ec_dec_uint(ec_dec *d, opus_uint32 ft)
-{ opus_uint32 v = __real_ec_dec_uint(d, ft); if (g_celt_on) rec(" u%u=%u", (unsigned)ft, (unsigned)v); return v; }
+{ opus_uint32 v = __real_ec_dec_uint(d, ft); if (g_celt_on) { rec(" u%u=%u", (unsigned)ft, (unsigned)v); if (g_celt_on == 2) { g_dist[28]++; if (ft >= (1u << 24)) g_dist[24]++; } } return v; }
 opus_uint32 __real_ec_dec_bits(ec_dec *, unsigned);
 opus_uint32 __wrap_ec_dec_bits(ec_dec *d, unsigned n)
 { opus_uint32 v = __real_ec_dec_bits(d, n); if (g_celt_on) rec(" r%u=%u", n, (unsigned)v); return v; }
@@ -169,6 +169,9 @@ int __wrap_ec_dec_icdf(ec_dec *d, const unsigned char *icdf, unsigned ftb)
 unsigned __real_ec_decode_bin(ec_dec *, unsigned);
 unsigned __wrap_ec_decode_bin(ec_dec *d, unsigned bits)
 { unsigned v = __real_ec_decode_bin(d, bits); if (g_celt_on) rec(" d%u=%u", bits, v); return v; }
+unsigned __real_ec_decode(ec_dec *, unsigned);
+unsigned __wrap_ec_decode(ec_dec *d, unsigned ft)
+{ unsigned v = __real_ec_decode(d, ft); if (g_celt_on) { rec(" e%u=%u", ft, v); g_dist[23]++; } return v; }
 void __real_ec_dec_update(ec_dec *, unsigned, unsigned, unsigned);
 void __wrap_ec_dec_update(ec_dec *d, unsigned fl, unsigned fh, unsigned ft)
 { if (g_celt_on) rec(" p%u,%u,%u", fl, fh, ft); __real_ec_dec_update(d, fl, fh, ft); }
@@ -178,17 +181,31 @@ int __wrap_clt_compute_allocation(const CELTMode *m, int start, int end, const i
       int *intensity, int *dual_stereo, opus_int32 total, opus_int32 *balance, int *pulses, int *ebits, int *fine_priority,
       int C, int LM, ec_ctx *ec, int encode, int prev, int signalBandwidth)
 {
-   if (g_celt_on && !encode) {
+   int on = g_celt_on && !encode, ret;
+   if (on) {
       int i;
       rec(" A%d,%d,%d,%d,%d,%d:", start, end, C, LM, alloc_trim, (int)total);
       for (i = start; i < end; i++) rec("%s%d", i > start ? "." : "", offsets[i]);
       rec(":");
       for (i = 0; i < 21; i++) rec("%s%d", i ? "." : "", cap[i]);
       rec(":%u,%u", (unsigned)ec->rng, (unsigned)ec_tell_frac(ec));
-      g_celt_on = 0; g_dist[3]++;
+      g_dist[3]++;
    }
-   return __real_clt_compute_allocation(m, start, end, offsets, cap, alloc_trim, intensity, dual_stereo, total, balance,
+   ret = __real_clt_compute_allocation(m, start, end, offsets, cap, alloc_trim, intensity, dual_stereo, total, balance,
       pulses, ebits, fine_priority, C, LM, ec, encode, prev, signalBandwidth);
+   if (on) {      /* the calls made inside were recorded; now the results */
+      int i;
+      rec(" L%d,%d,%d,%d:", ret, *intensity, *dual_stereo, (int)*balance);
+      for (i = start; i < end; i++) rec("%s%d", i > start ? "." : "", pulses[i]);
+      rec(":");
+      for (i = start; i < end; i++) rec("%s%d", i > start ? "." : "", ebits[i]);
+      rec(":");
+      for (i = start; i < end; i++) rec("%s%d", i > start ? "." : "", fine_priority[i]);
+      g_celt_on = 2;
+      g_dist[16 + (LM & 3)]++; g_dist[20] += C == 2; g_dist[21] += *dual_stereo != 0; g_dist[22] += C == 2 && *intensity < ret;
+      g_dist[26] += start == 17; g_dist[27] += ret < end;
+   }
+   return ret;
 }
 
 int __real_celt_decode_with_ec(CELTDecoder *, const unsigned char *, int, opus_res *, int, ec_dec *, int);
@@ -202,6 +219,7 @@ int __wrap_celt_decode_with_ec(CELTDecoder *st, const unsigned char *data, int l
       opus_uint32 r = 0;
       celt_decoder_ctl(st, OPUS_GET_FINAL_RANGE(&r));
       g_red = r; g_e_off = (long)(data - g_pkt);
+      if (len > 1) rec(" Z%u", (unsigned)r);
       rec(" E%ld,%d", g_e_off, len);
       g_dist[10]++;
    }
@@ -218,8 +236,9 @@ int __wrap_celt_decode_with_ec_dred(CELTDecoder *st, const unsigned char *data, 
 #endif
    )
 {
-   int ret;
+   int ret, on = 0;
    if (g_recording && data != NULL && dec != NULL && data >= g_pkt && data <= g_pkt + g_pktlen) {
+      on = len > 1;
       if (g_hybrid) { rec(" C%d,%u,%u,%d", len, (unsigned)dec->storage, (unsigned)dec->rng, ec_tell(dec)); g_dist[11]++; }
       else if (len > 1) rec(" celt@%ld", (long)(data - g_pkt));
       if (len > 1) g_celt_on = 1;
@@ -230,6 +249,7 @@ int __wrap_celt_decode_with_ec_dred(CELTDecoder *st, const unsigned char *data, 
 #endif
       );
    g_celt_on = 0;
+   if (on) { if (ret < 0) rec(" %s", verr(ret)); else rec(" Z%u", (unsigned)dec->rng); }
    return ret;
 }
 
@@ -263,14 +283,7 @@ static void do_packet(vdec *D, int fec, const unsigned char *pkt, long n)
       opus_decoder_ctl(D->d, OPUS_GET_FINAL_RANGE(&fin));
       printf("O OK ret=%d%s ", ret, g_reclen ? g_rec : "");
       cnt = opus_packet_parse(g_pkt, (opus_int32)n, &toc, fr, sz, &poff);
-      if (fec || cnt <= 0) printf("F%u\n", (unsigned)fin);
-      else {
-         long lastoff = (long)(fr[cnt - 1] - g_pkt);
-         if (sz[cnt - 1] <= 1) printf("F%u\n", (unsigned)fin);
-         else if (celt || g_hybrid) printf("F-\n");
-         else if (g_e_off >= lastoff && g_e_off - lastoff <= 1) printf("F%u\n", (unsigned)fin);
-         else printf("F%u\n", (unsigned)(fin ^ (g_e_off >= lastoff ? g_red : 0)));
-      }
+      (void)cnt; printf("F%u\n", (unsigned)fin);
       if (!fec || !(celt || D->stmode_celt)) D->stmode_celt = celt;
       g_dist[12] += fec; g_dist[13] += celt; g_dist[14] += g_hybrid;
    }
@@ -476,11 +489,13 @@ static long gen_struct(vrng *r, unsigned char *o)
 
 static void print_dist(void)
 {
-   static const char *nm[16] = {"sig0", "sig1", "sig2", "celt_headers", "lbrr_indices", "cond_coded", "indep_no_ltp_scaling", "pulses_gt16",
-      "stereo_pred", "mid_only", "redundancy_frames", "hybrid_celt_entries", "fec_decodes", "celt_packets", "hybrid_packets", "pulses_ge8192"};
+   static const char *nm[32] = {"sig0", "sig1", "sig2", "celt_headers", "lbrr_indices", "cond_coded", "indep_no_ltp_scaling", "pulses_gt16",
+      "stereo_pred", "mid_only", "redundancy_frames", "hybrid_celt_entries", "fec_decodes", "celt_packets", "hybrid_packets", "pulses_ge8192",
+      "celt_lm0", "celt_lm1", "celt_lm2", "celt_lm3", "celt_stereo", "dual_stereo", "intensity_stereo", "theta_pdf_reads", "pvq_ft_ge_2p24",
+      "inv_flag_reads", "celt_start17", "bands_skipped", "celt_uint_reads", "-", "-", "-"};
    int i;
    printf("#");
-   for (i = 0; i < 16; i++) printf(" %s=%ld", nm[i], g_dist[i]);
+   for (i = 0; i < 29; i++) printf(" %s=%ld", nm[i], g_dist[i]);
    printf("\n");
 }
 
